@@ -1,51 +1,55 @@
-// Copyright 2013 The Go Authors. All rights reserved.
-// Use of this source code is governed by a BSD-style
-// license that can be found in the LICENSE file.
-
-package interp
+package symgo
 
 import (
-	"bytes"
 	"fmt"
 	"go/constant"
 	"go/token"
 	"go/types"
-	"os"
-	"reflect"
-	"strings"
+	"math"
 	"unsafe"
 
 	"golang.org/x/tools/go/ssa"
-	"golang.org/x/tools/internal/typeparams"
+
+	"verif/engine/smt"
 )
 
-// If the target program panics, the interpreter panics with this type.
+// targetPanic is a panic of the interpreted program (recoverable by it).
 type targetPanic struct {
 	v value
 }
 
-func (p targetPanic) String() string {
-	return toString(p.v)
+func (p targetPanic) String() string { return toString(p.v) }
+
+// engineFault is a bug or limitation of the engine itself; never recoverable
+// by the interpreted program.
+type engineFault struct{ msg string }
+
+// unsupported is raised when the path needs a construct outside the encoding.
+type unsupported struct{ what string }
+
+// pathEnd aborts the current path for a regular reason.
+type pathEnd struct {
+	kind string // "infeasible", "violation", "budget", "fatal", "deadlock", "killed"
+	msg  string
 }
 
-// If the target program calls exit, the interpreter panics with this type.
-type exitPanic int
+func isEngineAbort(r any) bool {
+	switch r.(type) {
+	case engineFault, unsupported, pathEnd:
+		return true
+	}
+	return false
+}
 
-// constValue returns the value of the constant with the
-// dynamic type tag appropriate for c.Type().
 func constValue(c *ssa.Const) value {
 	if c.Value == nil {
-		return zero(c.Type()) // typed zero
+		return zero(c.Type())
 	}
-	// c is not a type parameter so it's underlying type is basic.
-
 	if t, ok := c.Type().Underlying().(*types.Basic); ok {
-		// TODO(adonovan): eliminate untyped constants from SSA form.
 		switch t.Kind() {
 		case types.Bool, types.UntypedBool:
 			return constant.BoolVal(c.Value)
 		case types.Int, types.UntypedInt:
-			// Assume sizeof(int) is same on host and target.
 			return int(c.Int64())
 		case types.Int8:
 			return int8(c.Int64())
@@ -56,7 +60,6 @@ func constValue(c *ssa.Const) value {
 		case types.Int64:
 			return c.Int64()
 		case types.Uint:
-			// Assume sizeof(uint) is same on host and target.
 			return uint(c.Uint64())
 		case types.Uint8:
 			return uint8(c.Uint64())
@@ -67,7 +70,6 @@ func constValue(c *ssa.Const) value {
 		case types.Uint64:
 			return c.Uint64()
 		case types.Uintptr:
-			// Assume sizeof(uintptr) is same on host and target.
 			return uintptr(c.Uint64())
 		case types.Float32:
 			return float32(c.Float64())
@@ -84,24 +86,9 @@ func constValue(c *ssa.Const) value {
 			return string(rune(c.Int64()))
 		}
 	}
-
-	panic(fmt.Sprintf("constValue: %s", c))
+	panic(engineFault{fmt.Sprintf("constValue: %s", c)})
 }
 
-// fitsInt returns true if x fits in type int according to sizes.
-func fitsInt(x int64, sizes types.Sizes) bool {
-	intSize := sizes.Sizeof(types.Typ[types.Int])
-	if intSize < sizes.Sizeof(types.Typ[types.Int64]) {
-		maxInt := int64(1)<<((intSize*8)-1) - 1
-		minInt := -int64(1) << ((intSize * 8) - 1)
-		return minInt <= x && x <= maxInt
-	}
-	return true
-}
-
-// asInt64 converts x, which must be an integer, to an int64.
-//
-// Callers that need a value directly usable as an int should combine this with fitsInt().
 func asInt64(x value) int64 {
 	switch x := x.(type) {
 	case int:
@@ -127,61 +114,35 @@ func asInt64(x value) int64 {
 	case uintptr:
 		return int64(x)
 	}
-	panic(fmt.Sprintf("cannot convert %T to int64", x))
+	panic(engineFault{fmt.Sprintf("cannot convert %T to int64", x)})
 }
 
-// asUint64 converts x, which must be an unsigned integer, to a uint64
-// suitable for use as a bitwise shift count.
-func asUint64(x value) uint64 {
-	switch x := x.(type) {
-	case uint:
-		return uint64(x)
-	case uint8:
-		return uint64(x)
-	case uint16:
-		return uint64(x)
-	case uint32:
-		return uint64(x)
-	case uint64:
-		return x
-	case uintptr:
-		return uint64(x)
+func isReflectValueType(t types.Type) bool {
+	n, ok := t.(*types.Named)
+	if !ok {
+		return false
 	}
-	panic(fmt.Sprintf("cannot convert %T to uint64", x))
+	o := n.Obj()
+	return o.Pkg() != nil && o.Pkg().Path() == "reflect" && o.Name() == "Value"
 }
 
-// asUnsigned returns the value of x, which must be an integer type, as its equivalent unsigned type,
-// and returns true if x is non-negative.
-func asUnsigned(x value) (value, bool) {
-	switch x := x.(type) {
-	case int:
-		return uint(x), x >= 0
-	case int8:
-		return uint8(x), x >= 0
-	case int16:
-		return uint16(x), x >= 0
-	case int32:
-		return uint32(x), x >= 0
-	case int64:
-		return uint64(x), x >= 0
-	case uint, uint8, uint32, uint64, uintptr:
-		return x, true
+func isNamed(t types.Type, pkg, name string) bool {
+	n, ok := types.Unalias(t).(*types.Named)
+	if !ok {
+		return false
 	}
-	panic(fmt.Sprintf("cannot convert %T to unsigned", x))
+	o := n.Obj()
+	return o.Pkg() != nil && o.Pkg().Path() == pkg && o.Name() == name
 }
 
-// zero returns a new "zero" value of the specified type.
+// zero returns a new zero value of type t.
 func zero(t types.Type) value {
 	switch t := t.(type) {
 	case *types.Basic:
 		if t.Kind() == types.UntypedNil {
-			panic("untyped nil has no zero value")
+			panic(engineFault{"untyped nil has no zero value"})
 		}
 		if t.Info()&types.IsUntyped != 0 {
-			// TODO(adonovan): make it an invariant that
-			// this is unreachable.  Currently some
-			// constants have 'untyped' types when they
-			// should be defaulted by the typechecker.
 			t = types.Default(t).(*types.Basic)
 		}
 		switch t.Kind() {
@@ -222,7 +183,7 @@ func zero(t types.Type) value {
 		case types.UnsafePointer:
 			return unsafe.Pointer(nil)
 		default:
-			panic(fmt.Sprint("zero for unexpected type:", t))
+			panic(engineFault{fmt.Sprint("zero for unexpected type:", t)})
 		}
 	case *types.Pointer:
 		return (*value)(nil)
@@ -233,11 +194,14 @@ func zero(t types.Type) value {
 		}
 		return a
 	case *types.Named:
+		if isReflectValueType(t) {
+			return rvalue{}
+		}
 		return zero(t.Underlying())
 	case *types.Alias:
 		return zero(types.Unalias(t))
 	case *types.Interface:
-		return iface{} // nil type, methodset and value
+		return iface{}
 	case *types.Slice:
 		return []value(nil)
 	case *types.Struct:
@@ -256,592 +220,723 @@ func zero(t types.Type) value {
 		}
 		return s
 	case *types.Chan:
-		return chan value(nil)
+		return (*vchan)(nil)
 	case *types.Map:
-		if usesBuiltinMap(t.Key()) {
-			return map[value]value(nil)
-		}
-		return (*hashmap)(nil)
+		return (*omap)(nil)
 	case *types.Signature:
 		return (*ssa.Function)(nil)
+	case *types.TypeParam:
+		panic(engineFault{"zero of type parameter " + t.String()})
 	}
-	panic(fmt.Sprint("zero: unexpected ", t))
+	panic(engineFault{fmt.Sprint("zero: unexpected ", t)})
 }
 
-// slice returns x[lo:hi:max].  Any of lo, hi and max may be nil.
-func slice(x, lo, hi, max value) value {
+// ---------------------------------------------------------------------------
+// runtime errors of the interpreted program
+
+func (m *Machine) runtimeErr(msg string) value {
+	return iface{t: m.prog.runtimeErrorT, v: msg}
+}
+
+func (m *Machine) rtPanic(msg string) {
+	panic(targetPanic{m.runtimeErr(msg)})
+}
+
+// concreteIndex returns idx as an int64 after checking 0 <= idx < n
+// (the check is a branch; a symbolic idx is concretised by forking).
+func (m *Machine) concreteIndex(idx value, n int, what string) int64 {
+	if s, ok := idx.(symv); ok {
+		w := kindWidth(s.k)
+		var inb *smt.Term
+		nn := m.ctx.BV(uint64(n), w)
+		if kindSigned(s.k) {
+			inb = m.ctx.And(m.ctx.Cmp(smt.OpSle, m.ctx.BV(0, w), s.t), m.ctx.Cmp(smt.OpSlt, s.t, nn))
+		} else {
+			inb = m.ctx.Cmp(smt.OpUlt, s.t, nn)
+		}
+		if !m.decide(mkScalar(inb, types.Bool), "index-in-range") {
+			m.rtPanic(fmt.Sprintf("index out of range [sym] with length %d (%s)", n, what))
+		}
+		return asInt64(m.concretize(idx, "index"))
+	}
+	i := asInt64(idx)
+	if k, _ := kindOf(idx); !kindSigned(k) && k != types.Bool {
+		if bitsOf(idx) >= uint64(n) {
+			m.rtPanic(fmt.Sprintf("index out of range [%d] with length %d", bitsOf(idx), n))
+		}
+		return i
+	}
+	if i < 0 || i >= int64(n) {
+		m.rtPanic(fmt.Sprintf("index out of range [%d] with length %d", i, n))
+	}
+	return i
+}
+
+// sliceBound concretises an optional slice bound.
+func (m *Machine) sliceBound(v value, def int64) int64 {
+	if v == nil {
+		return def
+	}
+	if isSym(v) {
+		v = m.concretizeRange(v, "slice-bound")
+	}
+	if k, _ := kindOf(v); !kindSigned(k) {
+		if bitsOf(v) > uint64(math.MaxInt64) {
+			return math.MaxInt64
+		}
+	}
+	return asInt64(v)
+}
+
+// slice returns x[lo:hi:max].
+func (m *Machine) slice(x, lo, hi, max value) value {
 	var Len, Cap int
 	switch x := x.(type) {
-	case string:
-		Len = len(x)
+	case string, sstr:
+		Len = strLen(x)
+		Cap = Len
 	case []value:
 		Len = len(x)
 		Cap = cap(x)
-	case *value: // *array
+	case *value:
+		if x == nil {
+			m.rtPanic("invalid memory address or nil pointer dereference")
+		}
 		a := (*x).(array)
 		Len = len(a)
 		Cap = cap(a)
 	}
-
-	l := int64(0)
-	if lo != nil {
-		l = asInt64(lo)
+	l := m.sliceBound(lo, 0)
+	h := m.sliceBound(hi, int64(Len))
+	mx := m.sliceBound(max, int64(Cap))
+	_, isStr := x.(string)
+	_, isSstr := x.(sstr)
+	if isStr || isSstr {
+		if l < 0 || h < l || h > int64(Len) {
+			m.rtPanic(fmt.Sprintf("slice bounds out of range [%d:%d] with length %d", l, h, Len))
+		}
+	} else {
+		if l < 0 || h < l || mx < h || mx > int64(Cap) {
+			m.rtPanic(fmt.Sprintf("slice bounds out of range [%d:%d:%d] with capacity %d", l, h, mx, Cap))
+		}
 	}
-
-	h := int64(Len)
-	if hi != nil {
-		h = asInt64(hi)
-	}
-
-	m := int64(Cap)
-	if max != nil {
-		m = asInt64(max)
-	}
-
 	switch x := x.(type) {
 	case string:
 		return x[l:h]
+	case sstr:
+		return mkString(x.b[l:h])
 	case []value:
-		return x[l:h:m]
-	case *value: // *array
+		if x == nil && l == 0 && h == 0 {
+			return []value(nil)
+		}
+		return x[l:h:mx]
+	case *value:
 		a := (*x).(array)
-		return []value(a)[l:h:m]
+		return []value(a)[l:h:mx]
 	}
-	panic(fmt.Sprintf("slice: unexpected X type: %T", x))
+	panic(engineFault{fmt.Sprintf("slice: unexpected X type: %T", x)})
 }
 
-// lookup returns x[idx] where x is a map.
-func lookup(instr *ssa.Lookup, x, idx value) value {
-	switch x := x.(type) { // map or string
-	case map[value]value, *hashmap:
-		var v value
-		var ok bool
-		switch x := x.(type) {
-		case map[value]value:
-			v, ok = x[idx]
-		case *hashmap:
-			v = x.lookup(idx.(hashable))
-			ok = v != nil
-		}
+func (m *Machine) lookup(instr *ssa.Lookup, x, idx value) value {
+	switch x := x.(type) {
+	case *omap:
+		v, ok := m.omapGet(x, idx)
 		if !ok {
 			v = zero(instr.X.Type().Underlying().(*types.Map).Elem())
+		} else {
+			v = copyVal(v)
 		}
 		if instr.CommaOk {
 			v = tuple{v, ok}
 		}
 		return v
+	case string, sstr:
+		b := strBytes(x)
+		i := m.concreteIndex(idx, len(b), "string index")
+		return b[i]
 	}
-	panic(fmt.Sprintf("unexpected x type in Lookup: %T", x))
+	panic(engineFault{fmt.Sprintf("unexpected x type in Lookup: %T", x)})
 }
 
-// binop implements all arithmetic and logical binary operators for
-// numeric datatypes and strings.  Both operands must have identical
-// dynamic type.
-func binop(op token.Token, t types.Type, x, y value) value {
+// ---------------------------------------------------------------------------
+// binary operators
+
+func cmpOp(op token.Token, signed bool) (smt.Op, bool, bool) {
+	// returns op, swap, negate
+	switch op {
+	case token.LSS:
+		if signed {
+			return smt.OpSlt, false, false
+		}
+		return smt.OpUlt, false, false
+	case token.LEQ:
+		if signed {
+			return smt.OpSle, false, false
+		}
+		return smt.OpUle, false, false
+	case token.GTR:
+		if signed {
+			return smt.OpSlt, true, false
+		}
+		return smt.OpUlt, true, false
+	case token.GEQ:
+		if signed {
+			return smt.OpSle, true, false
+		}
+		return smt.OpUle, true, false
+	}
+	panic("cmpOp")
+}
+
+func (m *Machine) symBinop(op token.Token, x, y value) value {
+	c := m.ctx
+	kx, _ := kindOf(x)
+	tx := m.termOf(x)
+	if kx == types.Bool {
+		ty := m.termOf(y)
+		switch op {
+		case token.EQL:
+			return mkScalar(c.Eq(tx, ty), types.Bool)
+		case token.NEQ:
+			return mkScalar(c.Ne(tx, ty), types.Bool)
+		case token.LAND, token.AND:
+			return mkScalar(c.And(tx, ty), types.Bool)
+		case token.LOR, token.OR:
+			return mkScalar(c.Or(tx, ty), types.Bool)
+		}
+		panic(engineFault{"symBinop bool " + op.String()})
+	}
+	w := kindWidth(kx)
+	signed := kindSigned(kx)
+	switch op {
+	case token.SHL, token.SHR:
+		ky, _ := kindOf(y)
+		ty := m.termOf(y)
+		if kindSigned(ky) {
+			neg := c.Cmp(smt.OpSlt, ty, c.BV(0, ty.W))
+			if m.decide(mkScalar(neg, types.Bool), "negative-shift") {
+				m.rtPanic("negative shift amount")
+			}
+		}
+		// bring count to operand width, saturating
+		var cnt *smt.Term
+		if ty.W > w {
+			big := c.Cmp(smt.OpUle, c.BV(uint64(w), ty.W), ty)
+			cnt = c.Ite(big, c.BV(uint64(w), w), c.Extract(ty, w-1, 0))
+		} else {
+			cnt = c.ZExt(ty, w)
+		}
+		var r *smt.Term
+		switch {
+		case op == token.SHL:
+			r = c.Bin(smt.OpShl, tx, cnt)
+		case signed:
+			r = c.Bin(smt.OpAShr, tx, cnt)
+		default:
+			r = c.Bin(smt.OpLShr, tx, cnt)
+		}
+		return mkScalar(r, kx)
+	}
+	ty := m.termOf(y)
+	if ty.W != tx.W {
+		panic(engineFault{fmt.Sprintf("symBinop %s: widths %d/%d (%T,%T)", op, tx.W, ty.W, x, y)})
+	}
 	switch op {
 	case token.ADD:
-		switch x.(type) {
-		case int:
-			return x.(int) + y.(int)
-		case int8:
-			return x.(int8) + y.(int8)
-		case int16:
-			return x.(int16) + y.(int16)
-		case int32:
-			return x.(int32) + y.(int32)
-		case int64:
-			return x.(int64) + y.(int64)
-		case uint:
-			return x.(uint) + y.(uint)
-		case uint8:
-			return x.(uint8) + y.(uint8)
-		case uint16:
-			return x.(uint16) + y.(uint16)
-		case uint32:
-			return x.(uint32) + y.(uint32)
-		case uint64:
-			return x.(uint64) + y.(uint64)
-		case uintptr:
-			return x.(uintptr) + y.(uintptr)
-		case float32:
-			return x.(float32) + y.(float32)
-		case float64:
-			return x.(float64) + y.(float64)
-		case complex64:
-			return x.(complex64) + y.(complex64)
-		case complex128:
-			return x.(complex128) + y.(complex128)
-		case string:
-			return x.(string) + y.(string)
-		}
-
+		return mkScalar(c.Bin(smt.OpAdd, tx, ty), kx)
 	case token.SUB:
-		switch x.(type) {
-		case int:
-			return x.(int) - y.(int)
-		case int8:
-			return x.(int8) - y.(int8)
-		case int16:
-			return x.(int16) - y.(int16)
-		case int32:
-			return x.(int32) - y.(int32)
-		case int64:
-			return x.(int64) - y.(int64)
-		case uint:
-			return x.(uint) - y.(uint)
-		case uint8:
-			return x.(uint8) - y.(uint8)
-		case uint16:
-			return x.(uint16) - y.(uint16)
-		case uint32:
-			return x.(uint32) - y.(uint32)
-		case uint64:
-			return x.(uint64) - y.(uint64)
-		case uintptr:
-			return x.(uintptr) - y.(uintptr)
-		case float32:
-			return x.(float32) - y.(float32)
-		case float64:
-			return x.(float64) - y.(float64)
-		case complex64:
-			return x.(complex64) - y.(complex64)
-		case complex128:
-			return x.(complex128) - y.(complex128)
-		}
-
+		return mkScalar(c.Bin(smt.OpSub, tx, ty), kx)
 	case token.MUL:
-		switch x.(type) {
-		case int:
-			return x.(int) * y.(int)
-		case int8:
-			return x.(int8) * y.(int8)
-		case int16:
-			return x.(int16) * y.(int16)
-		case int32:
-			return x.(int32) * y.(int32)
-		case int64:
-			return x.(int64) * y.(int64)
-		case uint:
-			return x.(uint) * y.(uint)
-		case uint8:
-			return x.(uint8) * y.(uint8)
-		case uint16:
-			return x.(uint16) * y.(uint16)
-		case uint32:
-			return x.(uint32) * y.(uint32)
-		case uint64:
-			return x.(uint64) * y.(uint64)
-		case uintptr:
-			return x.(uintptr) * y.(uintptr)
-		case float32:
-			return x.(float32) * y.(float32)
-		case float64:
-			return x.(float64) * y.(float64)
-		case complex64:
-			return x.(complex64) * y.(complex64)
-		case complex128:
-			return x.(complex128) * y.(complex128)
+		return mkScalar(c.Bin(smt.OpMul, tx, ty), kx)
+	case token.QUO, token.REM:
+		z := c.Eq(ty, c.BV(0, w))
+		if m.decide(mkScalar(z, types.Bool), "divide-by-zero") {
+			m.rtPanic("integer divide by zero")
 		}
-
-	case token.QUO:
-		switch x.(type) {
-		case int:
-			return x.(int) / y.(int)
-		case int8:
-			return x.(int8) / y.(int8)
-		case int16:
-			return x.(int16) / y.(int16)
-		case int32:
-			return x.(int32) / y.(int32)
-		case int64:
-			return x.(int64) / y.(int64)
-		case uint:
-			return x.(uint) / y.(uint)
-		case uint8:
-			return x.(uint8) / y.(uint8)
-		case uint16:
-			return x.(uint16) / y.(uint16)
-		case uint32:
-			return x.(uint32) / y.(uint32)
-		case uint64:
-			return x.(uint64) / y.(uint64)
-		case uintptr:
-			return x.(uintptr) / y.(uintptr)
-		case float32:
-			return x.(float32) / y.(float32)
-		case float64:
-			return x.(float64) / y.(float64)
-		case complex64:
-			return x.(complex64) / y.(complex64)
-		case complex128:
-			return x.(complex128) / y.(complex128)
+		var o smt.Op
+		switch {
+		case op == token.QUO && signed:
+			o = smt.OpSDiv
+		case op == token.QUO:
+			o = smt.OpUDiv
+		case signed:
+			o = smt.OpSRem
+		default:
+			o = smt.OpURem
 		}
-
-	case token.REM:
-		switch x.(type) {
-		case int:
-			return x.(int) % y.(int)
-		case int8:
-			return x.(int8) % y.(int8)
-		case int16:
-			return x.(int16) % y.(int16)
-		case int32:
-			return x.(int32) % y.(int32)
-		case int64:
-			return x.(int64) % y.(int64)
-		case uint:
-			return x.(uint) % y.(uint)
-		case uint8:
-			return x.(uint8) % y.(uint8)
-		case uint16:
-			return x.(uint16) % y.(uint16)
-		case uint32:
-			return x.(uint32) % y.(uint32)
-		case uint64:
-			return x.(uint64) % y.(uint64)
-		case uintptr:
-			return x.(uintptr) % y.(uintptr)
-		}
-
+		return mkScalar(c.Bin(o, tx, ty), kx)
 	case token.AND:
-		switch x.(type) {
-		case int:
-			return x.(int) & y.(int)
-		case int8:
-			return x.(int8) & y.(int8)
-		case int16:
-			return x.(int16) & y.(int16)
-		case int32:
-			return x.(int32) & y.(int32)
-		case int64:
-			return x.(int64) & y.(int64)
-		case uint:
-			return x.(uint) & y.(uint)
-		case uint8:
-			return x.(uint8) & y.(uint8)
-		case uint16:
-			return x.(uint16) & y.(uint16)
-		case uint32:
-			return x.(uint32) & y.(uint32)
-		case uint64:
-			return x.(uint64) & y.(uint64)
-		case uintptr:
-			return x.(uintptr) & y.(uintptr)
-		}
-
+		return mkScalar(c.Bin(smt.OpBvAnd, tx, ty), kx)
 	case token.OR:
-		switch x.(type) {
-		case int:
-			return x.(int) | y.(int)
-		case int8:
-			return x.(int8) | y.(int8)
-		case int16:
-			return x.(int16) | y.(int16)
-		case int32:
-			return x.(int32) | y.(int32)
-		case int64:
-			return x.(int64) | y.(int64)
-		case uint:
-			return x.(uint) | y.(uint)
-		case uint8:
-			return x.(uint8) | y.(uint8)
-		case uint16:
-			return x.(uint16) | y.(uint16)
-		case uint32:
-			return x.(uint32) | y.(uint32)
-		case uint64:
-			return x.(uint64) | y.(uint64)
-		case uintptr:
-			return x.(uintptr) | y.(uintptr)
-		}
-
+		return mkScalar(c.Bin(smt.OpBvOr, tx, ty), kx)
 	case token.XOR:
-		switch x.(type) {
-		case int:
-			return x.(int) ^ y.(int)
-		case int8:
-			return x.(int8) ^ y.(int8)
-		case int16:
-			return x.(int16) ^ y.(int16)
-		case int32:
-			return x.(int32) ^ y.(int32)
-		case int64:
-			return x.(int64) ^ y.(int64)
-		case uint:
-			return x.(uint) ^ y.(uint)
-		case uint8:
-			return x.(uint8) ^ y.(uint8)
-		case uint16:
-			return x.(uint16) ^ y.(uint16)
-		case uint32:
-			return x.(uint32) ^ y.(uint32)
-		case uint64:
-			return x.(uint64) ^ y.(uint64)
-		case uintptr:
-			return x.(uintptr) ^ y.(uintptr)
-		}
-
+		return mkScalar(c.Bin(smt.OpBvXor, tx, ty), kx)
 	case token.AND_NOT:
-		switch x.(type) {
-		case int:
-			return x.(int) &^ y.(int)
-		case int8:
-			return x.(int8) &^ y.(int8)
-		case int16:
-			return x.(int16) &^ y.(int16)
-		case int32:
-			return x.(int32) &^ y.(int32)
-		case int64:
-			return x.(int64) &^ y.(int64)
-		case uint:
-			return x.(uint) &^ y.(uint)
-		case uint8:
-			return x.(uint8) &^ y.(uint8)
-		case uint16:
-			return x.(uint16) &^ y.(uint16)
-		case uint32:
-			return x.(uint32) &^ y.(uint32)
-		case uint64:
-			return x.(uint64) &^ y.(uint64)
-		case uintptr:
-			return x.(uintptr) &^ y.(uintptr)
-		}
-
-	case token.SHL:
-		u, ok := asUnsigned(y)
-		if !ok {
-			panic("negative shift amount")
-		}
-		y := asUint64(u)
-		switch x.(type) {
-		case int:
-			return x.(int) << y
-		case int8:
-			return x.(int8) << y
-		case int16:
-			return x.(int16) << y
-		case int32:
-			return x.(int32) << y
-		case int64:
-			return x.(int64) << y
-		case uint:
-			return x.(uint) << y
-		case uint8:
-			return x.(uint8) << y
-		case uint16:
-			return x.(uint16) << y
-		case uint32:
-			return x.(uint32) << y
-		case uint64:
-			return x.(uint64) << y
-		case uintptr:
-			return x.(uintptr) << y
-		}
-
-	case token.SHR:
-		u, ok := asUnsigned(y)
-		if !ok {
-			panic("negative shift amount")
-		}
-		y := asUint64(u)
-		switch x.(type) {
-		case int:
-			return x.(int) >> y
-		case int8:
-			return x.(int8) >> y
-		case int16:
-			return x.(int16) >> y
-		case int32:
-			return x.(int32) >> y
-		case int64:
-			return x.(int64) >> y
-		case uint:
-			return x.(uint) >> y
-		case uint8:
-			return x.(uint8) >> y
-		case uint16:
-			return x.(uint16) >> y
-		case uint32:
-			return x.(uint32) >> y
-		case uint64:
-			return x.(uint64) >> y
-		case uintptr:
-			return x.(uintptr) >> y
-		}
-
-	case token.LSS:
-		switch x.(type) {
-		case int:
-			return x.(int) < y.(int)
-		case int8:
-			return x.(int8) < y.(int8)
-		case int16:
-			return x.(int16) < y.(int16)
-		case int32:
-			return x.(int32) < y.(int32)
-		case int64:
-			return x.(int64) < y.(int64)
-		case uint:
-			return x.(uint) < y.(uint)
-		case uint8:
-			return x.(uint8) < y.(uint8)
-		case uint16:
-			return x.(uint16) < y.(uint16)
-		case uint32:
-			return x.(uint32) < y.(uint32)
-		case uint64:
-			return x.(uint64) < y.(uint64)
-		case uintptr:
-			return x.(uintptr) < y.(uintptr)
-		case float32:
-			return x.(float32) < y.(float32)
-		case float64:
-			return x.(float64) < y.(float64)
-		case string:
-			return x.(string) < y.(string)
-		}
-
-	case token.LEQ:
-		switch x.(type) {
-		case int:
-			return x.(int) <= y.(int)
-		case int8:
-			return x.(int8) <= y.(int8)
-		case int16:
-			return x.(int16) <= y.(int16)
-		case int32:
-			return x.(int32) <= y.(int32)
-		case int64:
-			return x.(int64) <= y.(int64)
-		case uint:
-			return x.(uint) <= y.(uint)
-		case uint8:
-			return x.(uint8) <= y.(uint8)
-		case uint16:
-			return x.(uint16) <= y.(uint16)
-		case uint32:
-			return x.(uint32) <= y.(uint32)
-		case uint64:
-			return x.(uint64) <= y.(uint64)
-		case uintptr:
-			return x.(uintptr) <= y.(uintptr)
-		case float32:
-			return x.(float32) <= y.(float32)
-		case float64:
-			return x.(float64) <= y.(float64)
-		case string:
-			return x.(string) <= y.(string)
-		}
-
+		return mkScalar(c.Bin(smt.OpBvAnd, tx, c.BvNot(ty)), kx)
 	case token.EQL:
-		return eqnil(t, x, y)
-
+		return mkScalar(c.Eq(tx, ty), types.Bool)
 	case token.NEQ:
-		return !eqnil(t, x, y)
-
-	case token.GTR:
-		switch x.(type) {
-		case int:
-			return x.(int) > y.(int)
-		case int8:
-			return x.(int8) > y.(int8)
-		case int16:
-			return x.(int16) > y.(int16)
-		case int32:
-			return x.(int32) > y.(int32)
-		case int64:
-			return x.(int64) > y.(int64)
-		case uint:
-			return x.(uint) > y.(uint)
-		case uint8:
-			return x.(uint8) > y.(uint8)
-		case uint16:
-			return x.(uint16) > y.(uint16)
-		case uint32:
-			return x.(uint32) > y.(uint32)
-		case uint64:
-			return x.(uint64) > y.(uint64)
-		case uintptr:
-			return x.(uintptr) > y.(uintptr)
-		case float32:
-			return x.(float32) > y.(float32)
-		case float64:
-			return x.(float64) > y.(float64)
-		case string:
-			return x.(string) > y.(string)
+		return mkScalar(c.Ne(tx, ty), types.Bool)
+	case token.LSS, token.LEQ, token.GTR, token.GEQ:
+		o, swap, _ := cmpOp(op, signed)
+		a, b := tx, ty
+		if swap {
+			a, b = b, a
 		}
-
-	case token.GEQ:
-		switch x.(type) {
-		case int:
-			return x.(int) >= y.(int)
-		case int8:
-			return x.(int8) >= y.(int8)
-		case int16:
-			return x.(int16) >= y.(int16)
-		case int32:
-			return x.(int32) >= y.(int32)
-		case int64:
-			return x.(int64) >= y.(int64)
-		case uint:
-			return x.(uint) >= y.(uint)
-		case uint8:
-			return x.(uint8) >= y.(uint8)
-		case uint16:
-			return x.(uint16) >= y.(uint16)
-		case uint32:
-			return x.(uint32) >= y.(uint32)
-		case uint64:
-			return x.(uint64) >= y.(uint64)
-		case uintptr:
-			return x.(uintptr) >= y.(uintptr)
-		case float32:
-			return x.(float32) >= y.(float32)
-		case float64:
-			return x.(float64) >= y.(float64)
-		case string:
-			return x.(string) >= y.(string)
-		}
+		return mkScalar(c.Cmp(o, a, b), types.Bool)
 	}
-	panic(fmt.Sprintf("invalid binary op: %T %s %T", x, op, y))
+	panic(engineFault{"symBinop: " + op.String()})
 }
 
-// eqnil returns the comparison x == y using the equivalence relation
-// appropriate for type t.
-// If t is a reference type, at most one of x or y may be a nil value
-// of that type.
-func eqnil(t types.Type, x, y value) bool {
+func isStrVal(x value) bool {
+	switch x.(type) {
+	case string, sstr:
+		return true
+	}
+	return false
+}
+
+// strCompare builds the term for x < y / x <= y etc. over possibly symbolic strings.
+func (m *Machine) strBinop(op token.Token, x, y value) value {
+	_, xs := x.(sstr)
+	_, ys := y.(sstr)
+	if !xs && !ys {
+		a, b := x.(string), y.(string)
+		switch op {
+		case token.ADD:
+			return a + b
+		case token.EQL:
+			return a == b
+		case token.NEQ:
+			return a != b
+		case token.LSS:
+			return a < b
+		case token.LEQ:
+			return a <= b
+		case token.GTR:
+			return a > b
+		case token.GEQ:
+			return a >= b
+		}
+		panic(engineFault{"strBinop " + op.String()})
+	}
+	bx, by := strBytes(x), strBytes(y)
+	c := m.ctx
+	switch op {
+	case token.ADD:
+		out := make([]value, 0, len(bx)+len(by))
+		out = append(out, bx...)
+		out = append(out, by...)
+		return mkString(out)
+	case token.EQL, token.NEQ:
+		var eq *smt.Term
+		if len(bx) != len(by) {
+			eq = c.False
+		} else {
+			conj := make([]*smt.Term, len(bx))
+			for i := range bx {
+				conj[i] = c.Eq(m.termOf(bx[i]), m.termOf(by[i]))
+			}
+			eq = c.And(conj...)
+		}
+		if op == token.NEQ {
+			eq = c.Not(eq)
+		}
+		return mkScalar(eq, types.Bool)
+	case token.LSS, token.LEQ, token.GTR, token.GEQ:
+		if op == token.GTR || op == token.GEQ {
+			bx, by = by, bx
+			if op == token.GTR {
+				op = token.LSS
+			} else {
+				op = token.LEQ
+			}
+		}
+		// lexicographic x < y (or <=): fold from the end
+		n := len(bx)
+		if len(by) < n {
+			n = len(by)
+		}
+		var tail *smt.Term
+		if op == token.LSS {
+			tail = c.Bool(len(bx) < len(by))
+		} else {
+			tail = c.Bool(len(bx) <= len(by))
+		}
+		for i := n - 1; i >= 0; i-- {
+			a, b := m.termOf(bx[i]), m.termOf(by[i])
+			tail = c.Or(c.Cmp(smt.OpUlt, a, b), c.And(c.Eq(a, b), tail))
+		}
+		return mkScalar(tail, types.Bool)
+	}
+	panic(engineFault{"strBinop " + op.String()})
+}
+
+func (m *Machine) binop(op token.Token, t types.Type, x, y value) value {
+	if isSym(x) || isSym(y) {
+		return m.symBinop(op, x, y)
+	}
+	if isStrVal(x) && isStrVal(y) {
+		return m.strBinop(op, x, y)
+	}
+	switch op {
+	case token.EQL:
+		return m.eqnil(t, x, y)
+	case token.NEQ:
+		r := m.eqnil(t, x, y)
+		if b, ok := r.(bool); ok {
+			return !b
+		}
+		return mkScalar(m.ctx.Not(r.(symv).t), types.Bool)
+	case token.QUO, token.REM:
+		if k, ok := kindOf(y); ok && k != types.Bool && bitsOf(y) == 0 {
+			m.rtPanic("integer divide by zero")
+		}
+	case token.SHL, token.SHR:
+		if k, _ := kindOf(y); kindSigned(k) && asInt64(y) < 0 {
+			m.rtPanic("negative shift amount")
+		}
+	}
+	return concBinop(op, x, y)
+}
+
+func (m *Machine) eqnil(t types.Type, x, y value) value {
 	switch t.Underlying().(type) {
 	case *types.Map, *types.Signature, *types.Slice:
-		// Since these types don't support comparison,
-		// one of the operands must be a literal nil.
 		switch x := x.(type) {
-		case *hashmap:
-			return (x != nil) == (y.(*hashmap) != nil)
-		case map[value]value:
-			return (x != nil) == (y.(map[value]value) != nil)
+		case *omap:
+			return (x != nil) == (y.(*omap) != nil)
 		case *ssa.Function:
 			switch y := y.(type) {
 			case *ssa.Function:
 				return (x != nil) == (y != nil)
 			case *closure:
-				return true
+				return x != nil
 			}
 		case *closure:
-			return (x != nil) == (y.(*ssa.Function) != nil)
+			switch y := y.(type) {
+			case *ssa.Function:
+				return y != nil
+			case *closure:
+				return x == y
+			}
 		case []value:
 			return (x != nil) == (y.([]value) != nil)
 		}
-		panic(fmt.Sprintf("eqnil(%s): illegal dynamic type: %T", t, x))
+		panic(engineFault{fmt.Sprintf("eqnil(%s): illegal dynamic type: %T", t, x)})
 	}
-
-	return equals(t, x, y)
+	return m.equalsV(t, x, y)
 }
 
-func unop(instr *ssa.UnOp, x value) value {
+func sameType(x, y types.Type) bool {
+	if x == nil {
+		return y == nil
+	}
+	return y != nil && types.Identical(x, y)
+}
+
+// equalsV is Go's == on comparable values; the result is bool or a symbolic bool.
+func (m *Machine) equalsV(t types.Type, x, y value) value {
+	if isSym(x) || isSym(y) {
+		return m.symBinop(token.EQL, x, y)
+	}
+	switch x := x.(type) {
+	case bool, int, int8, int16, int32, int64, uint, uint8, uint16, uint32, uint64, uintptr, float32, float64, complex64, complex128:
+		return x == y
+	case string, sstr:
+		return m.strBinop(token.EQL, x, y)
+	case *value:
+		return x == y.(*value)
+	case *vchan:
+		return x == y.(*vchan)
+	case unsafe.Pointer:
+		return x == y.(unsafe.Pointer)
+	case structure:
+		ys := y.(structure)
+		var st *types.Struct
+		if t != nil {
+			st, _ = t.Underlying().(*types.Struct)
+		}
+		acc := value(true)
+		for i := range x {
+			var ft types.Type
+			if st != nil {
+				if st.Field(i).Name() == "_" {
+					continue
+				}
+				ft = st.Field(i).Type()
+			}
+			acc = m.andV(acc, m.equalsV(ft, x[i], ys[i]))
+			if b, ok := acc.(bool); ok && !b {
+				return false
+			}
+		}
+		return acc
+	case array:
+		ya := y.(array)
+		var et types.Type
+		if t != nil {
+			if at, ok := t.Underlying().(*types.Array); ok {
+				et = at.Elem()
+			}
+		}
+		acc := value(true)
+		for i := range x {
+			acc = m.andV(acc, m.equalsV(et, x[i], ya[i]))
+			if b, ok := acc.(bool); ok && !b {
+				return false
+			}
+		}
+		return acc
+	case iface:
+		yi := y.(iface)
+		if !sameType(x.t, yi.t) {
+			return false
+		}
+		if x.t == nil {
+			return true
+		}
+		if !types.Comparable(x.t) {
+			panic(targetPanic{m.runtimeErr("comparing uncomparable type " + x.t.String())})
+		}
+		return m.equalsV(x.t, x.v, yi.v)
+	case rtype:
+		return types.Identical(x.t, y.(rtype).t)
+	case *native:
+		return x == y.(*native)
+	case *ssa.Function:
+		if yf, ok := y.(*ssa.Function); ok {
+			return x == yf
+		}
+		return false
+	case *closure:
+		if yc, ok := y.(*closure); ok {
+			return x == yc
+		}
+		return false
+	case *omap:
+		return x == y.(*omap)
+	}
+	panic(engineFault{fmt.Sprintf("comparing uncomparable %T (type %v)", x, t)})
+}
+
+func (m *Machine) andV(a, b value) value {
+	if ab, ok := a.(bool); ok {
+		if !ab {
+			return false
+		}
+		return b
+	}
+	if bb, ok := b.(bool); ok {
+		if !bb {
+			return false
+		}
+		return a
+	}
+	return mkScalar(m.ctx.And(a.(symv).t, b.(symv).t), types.Bool)
+}
+
+func (m *Machine) orV(a, b value) value {
+	if ab, ok := a.(bool); ok {
+		if ab {
+			return true
+		}
+		return b
+	}
+	if bb, ok := b.(bool); ok {
+		if bb {
+			return true
+		}
+		return a
+	}
+	return mkScalar(m.ctx.Or(a.(symv).t, b.(symv).t), types.Bool)
+}
+
+func (m *Machine) notV(a value) value {
+	if ab, ok := a.(bool); ok {
+		return !ab
+	}
+	return mkScalar(m.ctx.Not(a.(symv).t), types.Bool)
+}
+
+// concBinop is arithmetic on concrete values of identical dynamic type.
+func concBinop(op token.Token, x, y value) value {
+	if k, ok := kindOf(x); ok && k != types.Bool {
+		// integers: go through bits with the exact width
+		w := kindWidth(k)
+		a := bitsOf(x)
+		var r uint64
+		switch op {
+		case token.SHL, token.SHR:
+			cnt := bitsOf(y)
+			if ky, _ := kindOf(y); kindSigned(ky) {
+				cnt = uint64(asInt64(y))
+			}
+			if op == token.SHL {
+				if cnt >= uint64(w) {
+					r = 0
+				} else {
+					r = a << cnt
+				}
+			} else if kindSigned(k) {
+				s := asInt64(x)
+				if cnt >= 64 {
+					cnt = 63
+				}
+				r = uint64(s >> cnt)
+			} else {
+				am := a
+				if w < 64 {
+					am &= (1 << uint(w)) - 1
+				}
+				if cnt >= uint64(w) {
+					r = 0
+				} else {
+					r = am >> cnt
+				}
+			}
+			return fromBits(k, r)
+		}
+		b := bitsOf(y)
+		switch op {
+		case token.ADD:
+			r = a + b
+		case token.SUB:
+			r = a - b
+		case token.MUL:
+			r = a * b
+		case token.QUO:
+			if kindSigned(k) {
+				sx, sy := asInt64(x), asInt64(y)
+				if sy == -1 {
+					r = uint64(-sx)
+				} else {
+					r = uint64(sx / sy)
+				}
+			} else {
+				r = (a & wmask(w)) / (b & wmask(w))
+			}
+		case token.REM:
+			if kindSigned(k) {
+				sx, sy := asInt64(x), asInt64(y)
+				if sy == -1 {
+					r = 0
+				} else {
+					r = uint64(sx % sy)
+				}
+			} else {
+				r = (a & wmask(w)) % (b & wmask(w))
+			}
+		case token.AND:
+			r = a & b
+		case token.OR:
+			r = a | b
+		case token.XOR:
+			r = a ^ b
+		case token.AND_NOT:
+			r = a &^ b
+		case token.LSS:
+			if kindSigned(k) {
+				return asInt64(x) < asInt64(y)
+			}
+			return a&wmask(w) < b&wmask(w)
+		case token.LEQ:
+			if kindSigned(k) {
+				return asInt64(x) <= asInt64(y)
+			}
+			return a&wmask(w) <= b&wmask(w)
+		case token.GTR:
+			if kindSigned(k) {
+				return asInt64(x) > asInt64(y)
+			}
+			return a&wmask(w) > b&wmask(w)
+		case token.GEQ:
+			if kindSigned(k) {
+				return asInt64(x) >= asInt64(y)
+			}
+			return a&wmask(w) >= b&wmask(w)
+		default:
+			panic(engineFault{fmt.Sprintf("invalid binary op: %T %s %T", x, op, y)})
+		}
+		return fromBits(k, r)
+	}
+	switch x := x.(type) {
+	case bool:
+		yb := y.(bool)
+		switch op {
+		case token.LAND, token.AND:
+			return x && yb
+		case token.LOR, token.OR:
+			return x || yb
+		}
+	case float32:
+		yf := y.(float32)
+		switch op {
+		case token.ADD:
+			return x + yf
+		case token.SUB:
+			return x - yf
+		case token.MUL:
+			return x * yf
+		case token.QUO:
+			return x / yf
+		case token.LSS:
+			return x < yf
+		case token.LEQ:
+			return x <= yf
+		case token.GTR:
+			return x > yf
+		case token.GEQ:
+			return x >= yf
+		}
+	case float64:
+		yf := y.(float64)
+		switch op {
+		case token.ADD:
+			return x + yf
+		case token.SUB:
+			return x - yf
+		case token.MUL:
+			return x * yf
+		case token.QUO:
+			return x / yf
+		case token.LSS:
+			return x < yf
+		case token.LEQ:
+			return x <= yf
+		case token.GTR:
+			return x > yf
+		case token.GEQ:
+			return x >= yf
+		}
+	case complex128:
+		yc := y.(complex128)
+		switch op {
+		case token.ADD:
+			return x + yc
+		case token.SUB:
+			return x - yc
+		case token.MUL:
+			return x * yc
+		case token.QUO:
+			return x / yc
+		}
+	}
+	panic(engineFault{fmt.Sprintf("invalid binary op: %T %s %T", x, op, y)})
+}
+
+func wmask(w int) uint64 {
+	if w >= 64 {
+		return ^uint64(0)
+	}
+	return (1 << uint(w)) - 1
+}
+
+func (m *Machine) unop(fr *frame, instr *ssa.UnOp, x value) value {
 	switch instr.Op {
-	case token.ARROW: // receive
-		v, ok := <-x.(chan value)
+	case token.ARROW:
+		ch, _ := x.(*vchan)
+		v, ok := m.chanRecv(ch)
 		if !ok {
 			v = zero(instr.X.Type().Underlying().(*types.Chan).Elem())
 		}
@@ -850,29 +945,13 @@ func unop(instr *ssa.UnOp, x value) value {
 		}
 		return v
 	case token.SUB:
+		if s, ok := x.(symv); ok {
+			return mkScalar(m.ctx.Neg(s.t), s.k)
+		}
+		if k, ok := kindOf(x); ok && k != types.Bool {
+			return fromBits(k, -bitsOf(x))
+		}
 		switch x := x.(type) {
-		case int:
-			return -x
-		case int8:
-			return -x
-		case int16:
-			return -x
-		case int32:
-			return -x
-		case int64:
-			return -x
-		case uint:
-			return -x
-		case uint8:
-			return -x
-		case uint16:
-			return -x
-		case uint32:
-			return -x
-		case uint64:
-			return -x
-		case uintptr:
-			return -x
 		case float32:
 			return -x
 		case float64:
@@ -883,63 +962,40 @@ func unop(instr *ssa.UnOp, x value) value {
 			return -x
 		}
 	case token.MUL:
-		return load(typeparams.MustDeref(instr.X.Type()), x.(*value))
+		p := x.(*value)
+		if p == nil {
+			m.rtPanic("invalid memory address or nil pointer dereference")
+		}
+		return load(nil, p)
 	case token.NOT:
-		return !x.(bool)
+		return m.notV(x)
 	case token.XOR:
-		switch x := x.(type) {
-		case int:
-			return ^x
-		case int8:
-			return ^x
-		case int16:
-			return ^x
-		case int32:
-			return ^x
-		case int64:
-			return ^x
-		case uint:
-			return ^x
-		case uint8:
-			return ^x
-		case uint16:
-			return ^x
-		case uint32:
-			return ^x
-		case uint64:
-			return ^x
-		case uintptr:
-			return ^x
+		if s, ok := x.(symv); ok {
+			return mkScalar(m.ctx.BvNot(s.t), s.k)
+		}
+		if k, ok := kindOf(x); ok && k != types.Bool {
+			return fromBits(k, ^bitsOf(x))
 		}
 	}
-	panic(fmt.Sprintf("invalid unary op %s %T", instr.Op, x))
+	panic(engineFault{fmt.Sprintf("invalid unary op %s %T", instr.Op, x)})
 }
 
-// typeAssert checks whether dynamic type of itf is instr.AssertedType.
-// It returns the extracted value on success, and panics on failure,
-// unless instr.CommaOk, in which case it always returns a "value,ok" tuple.
-func typeAssert(instr *ssa.TypeAssert, itf iface) value {
+func (m *Machine) typeAssert(instr *ssa.TypeAssert, itf iface) value {
 	var v value
 	err := ""
 	if itf.t == nil {
 		err = fmt.Sprintf("interface conversion: interface is nil, not %s", instr.AssertedType)
-
 	} else if idst, ok := instr.AssertedType.Underlying().(*types.Interface); ok {
 		v = itf
-		err = checkInterface(idst, itf)
-
+		err = m.checkInterface(idst, itf)
 	} else if types.Identical(itf.t, instr.AssertedType) {
-		v = itf.v // extract value
-
+		v = itf.v
 	} else {
 		err = fmt.Sprintf("interface conversion: interface is %s, not %s", itf.t, instr.AssertedType)
 	}
-	// Note: if instr.Underlying==true ever becomes reachable from interp check that
-	// types.Identical(itf.t.Underlying(), instr.AssertedType)
-
 	if err != "" {
 		if !instr.CommaOk {
-			panic(err)
+			panic(targetPanic{iface{t: m.prog.runtimeErrorT, v: err}})
 		}
 		return tuple{zero(instr.AssertedType), false}
 	}
@@ -949,84 +1005,323 @@ func typeAssert(instr *ssa.TypeAssert, itf iface) value {
 	return v
 }
 
-// This variable is no longer used but remains to prevent build breakage.
-var CapturedOutput *bytes.Buffer
+func (m *Machine) checkInterface(itype *types.Interface, x iface) string {
+	if _, ok := x.v.(rtype); ok && x.t == m.prog.rtypeMarker {
+		// reflect.Type's implementation satisfies reflect.Type and fmt.Stringer only
+		if itype.NumMethods() == 0 {
+			return ""
+		}
+		if itype.NumMethods() == 1 && itype.Method(0).Name() == "String" {
+			return ""
+		}
+		if types.Identical(itype, m.prog.reflectTypeIface) {
+			return ""
+		}
+		return "interface conversion: *reflect.rtype does not implement " + itype.String()
+	}
+	if meth, _ := types.MissingMethod(x.t, itype, true); meth != nil {
+		return fmt.Sprintf("interface conversion: %v is not %v: missing method %s", x.t, itype, meth.Name())
+	}
+	return ""
+}
 
-// callBuiltin interprets a call to builtin fn with arguments args,
-// returning its result.
-func callBuiltin(caller *frame, fn *ssa.Builtin, args []value) value {
+// ---------------------------------------------------------------------------
+// conversions
+
+func (m *Machine) conv(t_dst, t_src types.Type, x value) value {
+	ut_src := t_src.Underlying()
+	ut_dst := t_dst.Underlying()
+
+	if s, ok := x.(symv); ok {
+		db, ok := ut_dst.(*types.Basic)
+		if !ok {
+			panic(unsupported{fmt.Sprintf("conversion of symbolic %v to %v", t_src, t_dst)})
+		}
+		if db.Info()&types.IsInteger != 0 {
+			dk := db.Kind()
+			return mkScalar(m.ctx.Resize(s.t, kindWidth(dk), kindSigned(s.k)), dk)
+		}
+		if db.Kind() == types.Bool {
+			return x
+		}
+		if db.Info()&types.IsFloat != 0 {
+			panic(unsupported{"symbolic integer to float conversion"})
+		}
+		if db.Kind() == types.String {
+			// string(rune) of a symbolic value
+			v := m.concretizeRange(x, "rune-to-string")
+			return m.conv(t_dst, t_src, v)
+		}
+		panic(unsupported{fmt.Sprintf("conversion of symbolic %v to %v", t_src, t_dst)})
+	}
+
+	switch ut_src := ut_src.(type) {
+	case *types.Pointer:
+		if b, ok := ut_dst.(*types.Basic); ok && b.Kind() == types.UnsafePointer {
+			return unsafe.Pointer(x.(*value))
+		}
+	case *types.Slice:
+		switch ut_src.Elem().Underlying().(*types.Basic).Kind() {
+		case types.Byte:
+			return mkString(x.([]value))
+		case types.Rune:
+			xs := x.([]value)
+			r := make([]rune, 0, len(xs))
+			for i := range xs {
+				rv, ok := xs[i].(rune)
+				if !ok {
+					panic(unsupported{"[]rune with symbolic element to string"})
+				}
+				r = append(r, rv)
+			}
+			return string(r)
+		}
+	case *types.Basic:
+		if isStrVal(x) {
+			switch ut_dst := ut_dst.(type) {
+			case *types.Slice:
+				switch ut_dst.Elem().Underlying().(*types.Basic).Kind() {
+				case types.Rune:
+					s, ok := x.(string)
+					if !ok {
+						panic(unsupported{"symbolic string to []rune"})
+					}
+					var res []value
+					for _, r := range []rune(s) {
+						res = append(res, r)
+					}
+					return res
+				case types.Byte:
+					b := strBytes(x)
+					res := make([]value, len(b))
+					copy(res, b)
+					return res
+				}
+			case *types.Basic:
+				if ut_dst.Kind() == types.String {
+					return x
+				}
+			}
+			break
+		}
+		if ut_src.Kind() == types.UnsafePointer {
+			if p, ok := x.(unsafe.Pointer); ok {
+				if _, isPtr := ut_dst.(*types.Pointer); isPtr {
+					return (*value)(p)
+				}
+				return p
+			}
+			return zero(t_dst)
+		}
+		db, ok := ut_dst.(*types.Basic)
+		if !ok {
+			break
+		}
+		if ut_src.Info()&types.IsInteger != 0 && db.Kind() == types.String {
+			return string(rune(asInt64(x)))
+		}
+		if ut_src.Info()&types.IsComplex != 0 {
+			var c complex128
+			switch x := x.(type) {
+			case complex64:
+				c = complex128(x)
+			case complex128:
+				c = x
+			}
+			if db.Kind() == types.Complex64 {
+				return complex64(c)
+			}
+			return c
+		}
+		if ut_src.Info()&types.IsNumeric != 0 {
+			return convNumeric(db.Kind(), x)
+		}
+		if ut_src.Kind() == types.Bool && db.Kind() == types.Bool {
+			return x
+		}
+	}
+	panic(engineFault{fmt.Sprintf("unsupported conversion: %s  -> %s, dynamic type %T", t_src, t_dst, x)})
+}
+
+func convNumeric(kind types.BasicKind, x value) value {
+	switch xv := x.(type) {
+	case float32:
+		return convFloat(kind, float64(xv))
+	case float64:
+		return convFloat(kind, xv)
+	}
+	k, _ := kindOf(x)
+	switch kind {
+	case types.Float32:
+		if kindSigned(k) {
+			return float32(asInt64(x))
+		}
+		return float32(bitsOf(x) & wmask(kindWidth(k)))
+	case types.Float64:
+		if kindSigned(k) {
+			return float64(asInt64(x))
+		}
+		return float64(bitsOf(x) & wmask(kindWidth(k)))
+	}
+	var b uint64
+	if kindSigned(k) {
+		b = uint64(asInt64(x))
+	} else {
+		b = bitsOf(x) & wmask(kindWidth(k))
+	}
+	return fromBits(kind, b)
+}
+
+func convFloat(kind types.BasicKind, f float64) value {
+	switch kind {
+	case types.Float32:
+		return float32(f)
+	case types.Float64:
+		return f
+	case types.Int:
+		return int(f)
+	case types.Int8:
+		return int8(f)
+	case types.Int16:
+		return int16(f)
+	case types.Int32:
+		return int32(f)
+	case types.Int64:
+		return int64(f)
+	case types.Uint:
+		return uint(f)
+	case types.Uint8:
+		return uint8(f)
+	case types.Uint16:
+		return uint16(f)
+	case types.Uint32:
+		return uint32(f)
+	case types.Uint64:
+		return uint64(f)
+	case types.Uintptr:
+		return uintptr(f)
+	}
+	panic(engineFault{"convFloat"})
+}
+
+func (m *Machine) sliceToArrayPointer(t_dst, t_src types.Type, x value) value {
+	if ptr, ok := t_dst.Underlying().(*types.Pointer); ok {
+		if arr, ok := ptr.Elem().Underlying().(*types.Array); ok {
+			xs := x.([]value)
+			if arr.Len() > int64(len(xs)) {
+				m.rtPanic("cannot convert slice with length to array or pointer to array: length too short")
+			}
+			if xs == nil {
+				return zero(t_dst)
+			}
+			v := value(array(xs[:arr.Len()]))
+			return &v
+		}
+	}
+	panic(engineFault{fmt.Sprintf("unsupported conversion: %s  -> %s", t_src, t_dst)})
+}
+
+// ---------------------------------------------------------------------------
+// builtins
+
+func (m *Machine) callBuiltin(caller *frame, fn *ssa.Builtin, args []value) value {
 	switch fn.Name() {
 	case "append":
 		if len(args) == 1 {
 			return args[0]
 		}
-		if s, ok := args[1].(string); ok {
-			// append([]byte, ...string) []byte
+		if isStrVal(args[1]) {
 			arg0 := args[0].([]value)
-			for i := 0; i < len(s); i++ {
-				arg0 = append(arg0, s[i])
-			}
-			return arg0
+			return append(arg0, strBytes(args[1])...)
 		}
-		// append([]T, ...[]T) []T
-		return append(args[0].([]value), args[1].([]value)...)
+		src := args[1].([]value)
+		if len(src) == 0 {
+			return args[0]
+		}
+		cp := make([]value, len(src))
+		for i := range src {
+			cp[i] = copyVal(src[i])
+		}
+		return append(args[0].([]value), cp...)
 
-	case "copy": // copy([]T, []T) int or copy([]byte, string) int
+	case "copy":
 		src := args[1]
-		if _, ok := src.(string); ok {
-			params := fn.Type().(*types.Signature).Params()
-			src = conv(params.At(0).Type(), params.At(1).Type(), src)
+		if isStrVal(src) {
+			src = strBytes(src)
 		}
-		return copy(args[0].([]value), src.([]value))
+		dst := args[0].([]value)
+		s := src.([]value)
+		n := len(dst)
+		if len(s) < n {
+			n = len(s)
+		}
+		tmp := make([]value, n)
+		for i := 0; i < n; i++ {
+			tmp[i] = copyVal(s[i])
+		}
+		copy(dst, tmp)
+		return n
 
-	case "close": // close(chan T)
-		close(args[0].(chan value))
+	case "close":
+		m.chanClose(args[0].(*vchan))
 		return nil
 
-	case "delete": // delete(map[K]value, K)
-		switch m := args[0].(type) {
-		case map[value]value:
-			delete(m, args[1])
-		case *hashmap:
-			m.delete(args[1].(hashable))
-		default:
-			panic(fmt.Sprintf("illegal map type: %T", m))
+	case "delete":
+		mm := args[0].(*omap)
+		if mm != nil {
+			m.omapDelete(mm, args[1])
 		}
 		return nil
 
-	case "print", "println": // print(any, ...)
-		ln := fn.Name() == "println"
-		var buf bytes.Buffer
-		for i, arg := range args {
-			if i > 0 && ln {
-				buf.WriteRune(' ')
+	case "clear":
+		switch x := args[0].(type) {
+		case *omap:
+			if x != nil {
+				for i := range x.alive {
+					x.alive[i] = false
+				}
+				x.n = 0
 			}
-			buf.WriteString(toString(arg))
+		case []value:
+			if len(x) > 0 {
+				et := fn.Type().(*types.Signature).Params().At(0).Type().Underlying().(*types.Slice).Elem()
+				for i := range x {
+					x[i] = zero(et)
+				}
+			}
 		}
-		if ln {
-			buf.WriteRune('\n')
-		}
-		os.Stderr.Write(buf.Bytes())
+		return nil
+
+	case "print", "println":
 		return nil
 
 	case "len":
 		switch x := args[0].(type) {
 		case string:
 			return len(x)
+		case sstr:
+			return len(x.b)
 		case array:
 			return len(x)
 		case *value:
+			if x == nil {
+				// len of nil *array is the array length; need the type
+				if pt, ok := fn.Type().(*types.Signature).Params().At(0).Type().Underlying().(*types.Pointer); ok {
+					return int(pt.Elem().Underlying().(*types.Array).Len())
+				}
+			}
 			return len((*x).(array))
 		case []value:
 			return len(x)
-		case map[value]value:
-			return len(x)
-		case *hashmap:
+		case *omap:
 			return x.len()
-		case chan value:
-			return len(x)
+		case *vchan:
+			if x == nil {
+				return 0
+			}
+			return len(x.buf)
 		default:
-			panic(fmt.Sprintf("len: illegal operand: %T", x))
+			panic(engineFault{fmt.Sprintf("len: illegal operand: %T", x)})
 		}
 
 	case "cap":
@@ -1037,466 +1332,56 @@ func callBuiltin(caller *frame, fn *ssa.Builtin, args []value) value {
 			return cap((*x).(array))
 		case []value:
 			return cap(x)
-		case chan value:
-			return cap(x)
+		case *vchan:
+			if x == nil {
+				return 0
+			}
+			return x.cap
 		default:
-			panic(fmt.Sprintf("cap: illegal operand: %T", x))
+			panic(engineFault{fmt.Sprintf("cap: illegal operand: %T", x)})
 		}
 
 	case "min":
-		return foldLeft(min, args)
+		x := args[0]
+		for _, a := range args[1:] {
+			x = m.minmax(token.LSS, a, x)
+		}
+		return x
 	case "max":
-		return foldLeft(max, args)
-
-	case "real":
-		switch c := args[0].(type) {
-		case complex64:
-			return real(c)
-		case complex128:
-			return real(c)
-		default:
-			panic(fmt.Sprintf("real: illegal operand: %T", c))
+		x := args[0]
+		for _, a := range args[1:] {
+			x = m.minmax(token.GTR, a, x)
 		}
-
-	case "imag":
-		switch c := args[0].(type) {
-		case complex64:
-			return imag(c)
-		case complex128:
-			return imag(c)
-		default:
-			panic(fmt.Sprintf("imag: illegal operand: %T", c))
-		}
-
-	case "complex":
-		switch f := args[0].(type) {
-		case float32:
-			return complex(f, args[1].(float32))
-		case float64:
-			return complex(f, args[1].(float64))
-		default:
-			panic(fmt.Sprintf("complex: illegal operand: %T", f))
-		}
+		return x
 
 	case "panic":
-		// ssa.Panic handles most cases; this is only for "go
-		// panic" or "defer panic".
 		panic(targetPanic{args[0]})
 
 	case "recover":
-		return doRecover(caller)
+		return m.doRecover(caller)
 
 	case "ssa:wrapnilchk":
 		recv := args[0]
 		if recv.(*value) == nil {
-			recvType := args[1]
-			methodName := args[2]
-			panic(fmt.Sprintf("value method (%s).%s called using nil *%s pointer",
-				recvType, methodName, recvType))
+			m.rtPanic(fmt.Sprintf("value method (%s).%s called using nil *%s pointer", toString(args[1]), toString(args[2]), toString(args[1])))
 		}
 		return recv
 
 	case "ssa:deferstack":
 		return &caller.defers
 	}
-
-	panic("unknown built-in: " + fn.Name())
+	panic(unsupported{"built-in " + fn.Name()})
 }
 
-func rangeIter(x value) iter {
-	switch x := x.(type) {
-	case map[value]value:
-		return &mapIter{iter: reflect.ValueOf(x).MapRange()}
-	case *hashmap:
-		return &hashmapIter{iter: reflect.ValueOf(x.entries()).MapRange()}
-	case string:
-		return &stringIter{Reader: strings.NewReader(x)}
-	}
-	panic(fmt.Sprintf("cannot range over %T", x))
-}
-
-// widen widens a basic typed value x to the widest type of its
-// category, one of:
-//
-//	bool, int64, uint64, float64, complex128, string.
-//
-// This is inefficient but reduces the size of the cross-product of
-// cases we have to consider.
-func widen(x value) value {
-	switch y := x.(type) {
-	case bool, int64, uint64, float64, complex128, string, unsafe.Pointer:
-		return x
-	case int:
-		return int64(y)
-	case int8:
-		return int64(y)
-	case int16:
-		return int64(y)
-	case int32:
-		return int64(y)
-	case uint:
-		return uint64(y)
-	case uint8:
-		return uint64(y)
-	case uint16:
-		return uint64(y)
-	case uint32:
-		return uint64(y)
-	case uintptr:
-		return uint64(y)
-	case float32:
-		return float64(y)
-	case complex64:
-		return complex128(y)
-	}
-	panic(fmt.Sprintf("cannot widen %T", x))
-}
-
-// conv converts the value x of type t_src to type t_dst and returns
-// the result.
-// Possible cases are described with the ssa.Convert operator.
-func conv(t_dst, t_src types.Type, x value) value {
-	ut_src := t_src.Underlying()
-	ut_dst := t_dst.Underlying()
-
-	// Destination type is not an "untyped" type.
-	if b, ok := ut_dst.(*types.Basic); ok && b.Info()&types.IsUntyped != 0 {
-		panic("oops: conversion to 'untyped' type: " + b.String())
-	}
-
-	// Nor is it an interface type.
-	if _, ok := ut_dst.(*types.Interface); ok {
-		if _, ok := ut_src.(*types.Interface); ok {
-			panic("oops: Convert should be ChangeInterface")
-		} else {
-			panic("oops: Convert should be MakeInterface")
+// minmax returns y if (y op x) else x.
+func (m *Machine) minmax(op token.Token, y, x value) value {
+	c := m.binop(op, nil, y, x)
+	if b, ok := c.(bool); ok {
+		if b {
+			return y
 		}
-	}
-
-	// Remaining conversions:
-	//    + untyped string/number/bool constant to a specific
-	//      representation.
-	//    + conversions between non-complex numeric types.
-	//    + conversions between complex numeric types.
-	//    + integer/[]byte/[]rune -> string.
-	//    + string -> []byte/[]rune.
-	//
-	// All are treated the same: first we extract the value to the
-	// widest representation (int64, uint64, float64, complex128,
-	// or string), then we convert it to the desired type.
-
-	switch ut_src := ut_src.(type) {
-	case *types.Pointer:
-		switch ut_dst := ut_dst.(type) {
-		case *types.Basic:
-			// *value to unsafe.Pointer?
-			if ut_dst.Kind() == types.UnsafePointer {
-				return unsafe.Pointer(x.(*value))
-			}
-		}
-
-	case *types.Slice:
-		// []byte or []rune -> string
-		switch ut_src.Elem().Underlying().(*types.Basic).Kind() {
-		case types.Byte:
-			x := x.([]value)
-			b := make([]byte, 0, len(x))
-			for i := range x {
-				b = append(b, x[i].(byte))
-			}
-			return string(b)
-
-		case types.Rune:
-			x := x.([]value)
-			r := make([]rune, 0, len(x))
-			for i := range x {
-				r = append(r, x[i].(rune))
-			}
-			return string(r)
-		}
-
-	case *types.Basic:
-		x = widen(x)
-
-		// integer -> string?
-		if ut_src.Info()&types.IsInteger != 0 {
-			if ut_dst, ok := ut_dst.(*types.Basic); ok && ut_dst.Kind() == types.String {
-				return fmt.Sprintf("%c", x)
-			}
-		}
-
-		// string -> []rune, []byte or string?
-		if s, ok := x.(string); ok {
-			switch ut_dst := ut_dst.(type) {
-			case *types.Slice:
-				var res []value
-				switch ut_dst.Elem().Underlying().(*types.Basic).Kind() {
-				case types.Rune:
-					for _, r := range []rune(s) {
-						res = append(res, r)
-					}
-					return res
-				case types.Byte:
-					for _, b := range []byte(s) {
-						res = append(res, b)
-					}
-					return res
-				}
-			case *types.Basic:
-				if ut_dst.Kind() == types.String {
-					return x.(string)
-				}
-			}
-			break // fail: no other conversions for string
-		}
-
-		// unsafe.Pointer -> *value
-		if ut_src.Kind() == types.UnsafePointer {
-			// TODO(adonovan): this is wrong and cannot
-			// really be fixed with the current design.
-			//
-			// return (*value)(x.(unsafe.Pointer))
-			// creates a new pointer of a different
-			// type but the underlying interface value
-			// knows its "true" type and so cannot be
-			// meaningfully used through the new pointer.
-			//
-			// To make this work, the interpreter needs to
-			// simulate the memory layout of a real
-			// compiled implementation.
-			//
-			// To at least preserve type-safety, we'll
-			// just return the zero value of the
-			// destination type.
-			return zero(t_dst)
-		}
-
-		// Conversions between complex numeric types?
-		if ut_src.Info()&types.IsComplex != 0 {
-			switch ut_dst.(*types.Basic).Kind() {
-			case types.Complex64:
-				return complex64(x.(complex128))
-			case types.Complex128:
-				return x.(complex128)
-			}
-			break // fail: no other conversions for complex
-		}
-
-		// Conversions between non-complex numeric types?
-		if ut_src.Info()&types.IsNumeric != 0 {
-			kind := ut_dst.(*types.Basic).Kind()
-			switch x := x.(type) {
-			case int64: // signed integer -> numeric?
-				switch kind {
-				case types.Int:
-					return int(x)
-				case types.Int8:
-					return int8(x)
-				case types.Int16:
-					return int16(x)
-				case types.Int32:
-					return int32(x)
-				case types.Int64:
-					return int64(x)
-				case types.Uint:
-					return uint(x)
-				case types.Uint8:
-					return uint8(x)
-				case types.Uint16:
-					return uint16(x)
-				case types.Uint32:
-					return uint32(x)
-				case types.Uint64:
-					return uint64(x)
-				case types.Uintptr:
-					return uintptr(x)
-				case types.Float32:
-					return float32(x)
-				case types.Float64:
-					return float64(x)
-				}
-
-			case uint64: // unsigned integer -> numeric?
-				switch kind {
-				case types.Int:
-					return int(x)
-				case types.Int8:
-					return int8(x)
-				case types.Int16:
-					return int16(x)
-				case types.Int32:
-					return int32(x)
-				case types.Int64:
-					return int64(x)
-				case types.Uint:
-					return uint(x)
-				case types.Uint8:
-					return uint8(x)
-				case types.Uint16:
-					return uint16(x)
-				case types.Uint32:
-					return uint32(x)
-				case types.Uint64:
-					return uint64(x)
-				case types.Uintptr:
-					return uintptr(x)
-				case types.Float32:
-					return float32(x)
-				case types.Float64:
-					return float64(x)
-				}
-
-			case float64: // floating point -> numeric?
-				switch kind {
-				case types.Int:
-					return int(x)
-				case types.Int8:
-					return int8(x)
-				case types.Int16:
-					return int16(x)
-				case types.Int32:
-					return int32(x)
-				case types.Int64:
-					return int64(x)
-				case types.Uint:
-					return uint(x)
-				case types.Uint8:
-					return uint8(x)
-				case types.Uint16:
-					return uint16(x)
-				case types.Uint32:
-					return uint32(x)
-				case types.Uint64:
-					return uint64(x)
-				case types.Uintptr:
-					return uintptr(x)
-				case types.Float32:
-					return float32(x)
-				case types.Float64:
-					return float64(x)
-				}
-			}
-		}
-	}
-
-	panic(fmt.Sprintf("unsupported conversion: %s  -> %s, dynamic type %T", t_src, t_dst, x))
-}
-
-// sliceToArrayPointer converts the value x of type slice to type t_dst
-// a pointer to array and returns the result.
-func sliceToArrayPointer(t_dst, t_src types.Type, x value) value {
-	if _, ok := t_src.Underlying().(*types.Slice); ok {
-		if ptr, ok := t_dst.Underlying().(*types.Pointer); ok {
-			if arr, ok := ptr.Elem().Underlying().(*types.Array); ok {
-				x := x.([]value)
-				if arr.Len() > int64(len(x)) {
-					panic("array length is greater than slice length")
-				}
-				if x == nil {
-					return zero(t_dst)
-				}
-				v := value(array(x[:arr.Len()]))
-				return &v
-			}
-		}
-	}
-
-	panic(fmt.Sprintf("unsupported conversion: %s  -> %s, dynamic type %T", t_src, t_dst, x))
-}
-
-// checkInterface checks that the method set of x implements the
-// interface itype.
-// On success it returns "", on failure, an error message.
-func checkInterface(itype *types.Interface, x iface) string {
-	if meth, _ := types.MissingMethod(x.t, itype, true); meth != nil {
-		return fmt.Sprintf("interface conversion: %v is not %v: missing method %s",
-			x.t, itype, meth.Name())
-	}
-	return "" // ok
-}
-
-func foldLeft(op func(value, value) value, args []value) value {
-	x := args[0]
-	for _, arg := range args[1:] {
-		x = op(x, arg)
-	}
-	return x
-}
-
-func min(x, y value) value {
-	switch x := x.(type) {
-	case float32:
-		return fmin(x, y.(float32))
-	case float64:
-		return fmin(x, y.(float64))
-	}
-
-	// return (y < x) ? y : x
-	if binop(token.LSS, nil, y, x).(bool) {
-		return y
-	}
-	return x
-}
-
-func max(x, y value) value {
-	switch x := x.(type) {
-	case float32:
-		return fmax(x, y.(float32))
-	case float64:
-		return fmax(x, y.(float64))
-	}
-
-	// return (y > x) ? y : x
-	if binop(token.GTR, nil, y, x).(bool) {
-		return y
-	}
-	return x
-}
-
-// copied from $GOROOT/src/runtime/minmax.go
-
-type floaty interface{ ~float32 | ~float64 }
-
-func fmin[F floaty](x, y F) F {
-	if y != y || y < x {
-		return y
-	}
-	if x != x || x < y || x != 0 {
 		return x
 	}
-	// x and y are both ±0
-	// if either is -0, return -0; else return +0
-	return forbits(x, y)
-}
-
-func fmax[F floaty](x, y F) F {
-	if y != y || y > x {
-		return y
-	}
-	if x != x || x > y || x != 0 {
-		return x
-	}
-	// x and y are both ±0
-	// if both are -0, return -0; else return +0
-	return fandbits(x, y)
-}
-
-func forbits[F floaty](x, y F) F {
-	switch unsafe.Sizeof(x) {
-	case 4:
-		*(*uint32)(unsafe.Pointer(&x)) |= *(*uint32)(unsafe.Pointer(&y))
-	case 8:
-		*(*uint64)(unsafe.Pointer(&x)) |= *(*uint64)(unsafe.Pointer(&y))
-	}
-	return x
-}
-
-func fandbits[F floaty](x, y F) F {
-	switch unsafe.Sizeof(x) {
-	case 4:
-		*(*uint32)(unsafe.Pointer(&x)) &= *(*uint32)(unsafe.Pointer(&y))
-	case 8:
-		*(*uint64)(unsafe.Pointer(&x)) &= *(*uint64)(unsafe.Pointer(&y))
-	}
-	return x
+	k, _ := kindOf(x)
+	return mkScalar(m.ctx.Ite(c.(symv).t, m.termOf(y), m.termOf(x)), k)
 }
